@@ -2,7 +2,7 @@
 # usage: tools/try_seed.sh <seed-dir> <prop> <seed-name> [tier]
 # Verifies a seeded breaking change produced in a scratch worktree and runs the property's check against it.
 SRC=$1; PROP=$2; NAME=$3; TIER=${4:-quick}
-WT=/tmp/wt-mut
+WT=${WT:-/tmp/wt-mut}
 cd $WT && git checkout -q --detach $(git -C /repo rev-parse HEAD) && git checkout -q -- . && git clean -fdq
 DEST=/verif/seeded/$NAME
 mkdir -p $DEST
